@@ -90,23 +90,37 @@ def _gens(inp):
     return {k: np.array([[float(F(x)) for x in r] for r in m]) for k, m in inp["gens"].items()}
 
 
+def _unimodular(rng, d):
+    """unimodular integer matrix: a product of elementary matrices (exact inverse)"""
+    M = [[F(int(i == j)) for j in range(d)] for i in range(d)]
+    for _ in range(rng.randint(1, 4)):
+        i, j = rng.sample(range(d), 2)
+        t = rng.choice([-2, -1, 1, 2])
+        for k in range(d):
+            M[i][k] += t * M[j][k]
+    return [[Q.qs(x) for x in r] for r in M]
+
+
 def gen_word(rng, n):
     for c in range(n):
         d = rng.choice([2, 3, 3, 4])
         names = ["a", "b", "c"][:rng.randint(1, 3)]
         gens = {}
         for nm in names:
-            # unimodular integer matrices: products of elementary matrices (exact inverses)
-            M = [[F(int(i == j)) for j in range(d)] for i in range(d)]
-            for _ in range(rng.randint(1, 4)):
-                i, j = rng.sample(range(d), 2)
-                t = rng.choice([-2, -1, 1, 2])
-                for k in range(d):
-                    M[i][k] += t * M[j][k]
-            gens[nm] = [[Q.qs(x) for x in r] for r in M]
+            gens[nm] = _unimodular(rng, d)
         alphabet = names + [x.upper() for x in names]
         word = "".join(rng.choice(alphabet) for _ in range(rng.randint(0, 8)))
-        yield {"d": d, "gens": gens, "word": word, "p": [rng.randint(-3, 3) for _ in range(d)], "hyp": c % 2 == 1}
+        inp = {"d": d, "gens": gens, "word": word, "p": [rng.randint(-3, 3) for _ in range(d)], "hyp": c % 2 == 1}
+        if c % 4 >= 2:
+            # the names of a representation are semigroup generators: an upper-case name assigned on its own (compute_inverse=False) to a matrix
+            # that is NOT the inverse of the lower-case one, and a word in which the two become adjacent
+            for nm in names:
+                if nm == names[0] or rng.random() < 0.5:
+                    gens[nm.upper()] = _unimodular(rng, d)
+            k = rng.randint(0, len(word))
+            a = names[0]
+            inp["word"] = word[:k] + rng.choice([a + a.upper(), a.upper() + a, a + a.upper() + a]) + word[k:]
+        yield inp
 
 
 def run_word(inp):
@@ -114,7 +128,11 @@ def run_word(inp):
     rep = cls()
     for k, M in _gens(inp).items():
         # the user hands over a Transformation acting on columns by M
-        rep[k] = (H.Isometry if inp["hyp"] else P.Transformation)(M, column_vectors=True)
+        if k.islower():
+            rep[k] = (H.Isometry if inp["hyp"] else P.Transformation)(M, column_vectors=True)
+    for k, M in _gens(inp).items():
+        if k.isupper():          # an upper-case name of its own, assigned after (and instead of) the computed inverse
+            rep.set_generator(k, (H.Isometry if inp["hyp"] else P.Transformation)(M, column_vectors=True), compute_inverse=False)
     T = rep[inp["word"]]
     pt = P.Point(np.array(inp["p"], dtype=float))
     out = (T @ pt).proj_data
@@ -126,10 +144,14 @@ def lean_word(inp, obs):
     for k, m in inp["gens"].items():
         M = [[F(x) for x in r] for r in m]
         gens.append({"name": k, "m": m})
+        if k.isupper() or k.upper() in inp["gens"]:
+            continue                                   # the upper-case name has a matrix of its own
         Mi = np.round(np.linalg.inv(np.array([[float(x) for x in r] for r in M]))).astype(int)     # unimodular: exact integer inverse
         gens.append({"name": k.upper(), "m": [[str(int(x)) for x in r] for r in Mi]})
     ops = [{"op": "c03.word_act", "n": inp["d"], "gens": gens, "word": list(inp["word"]), "p": [str(x) for x in inp["p"]]}]
     for k, m in inp["gens"].items():
+        if k.isupper():
+            continue
         Mi = np.round(np.linalg.inv(np.array([[float(F(x)) for x in r] for r in m]))).astype(int)
         ops.append({"op": "c03.inv_check", "n": inp["d"], "A": m, "Ainv": [[str(int(x)) for x in r] for r in Mi]})
     return ops
@@ -149,7 +171,8 @@ def judge_word(inp, obs, lr):
     if obs["class"] != want_cls:
         return {"expected": want_cls, "observed": obs["class"], "tags": {"class": True}}
     if not O.allclose(obs["row"], col, 1e-9):
-        return {"expected": {"column_action": col.tolist()}, "observed": {"rep[word]@p": obs["row"]}, "tags": {"word_len": len(inp["word"])}, "property_failure": True}
+        return {"expected": {"column_action": col.tolist()}, "observed": {"rep[word]@p": obs["row"]},
+                "tags": {"word_len": len(inp["word"]), "own_uppercase": any(k.isupper() for k in inp["gens"])}, "property_failure": True}
     if not O.allclose(obs["matrix_T"], Q.decf(res["ok"]["mat"]), 1e-9):
         return {"expected": "rep[word].matrix.T = product of the generators' column matrices", "observed": obs["matrix_T"], "tags": {"matrix": True}}
     return None
@@ -294,14 +317,120 @@ def run_laws(inp):
     return {"bad": bad}
 
 
+# ------------------------------------------------------------------ oracle: transformations of DIFFERENT classes in every binary operation
+MIX_KINDS = ["transformation", "transformation", "point", "pair", "segment", "geodesic", "polygon", "tangent", "horosphere", "hyperplane", "subspace"]
+
+
+def gen_mixcls(rng, n):
+    for c in range(n):
+        ashape = rng.choice(O.SHAPES[:9])
+        yield {"op": "mixed_classes", "n": rng.choice([2, 2, 3]), "seed": rng.randrange(10 ** 9), "ashape": ashape,
+               "xshape": N.bcast_partner(rng, ashape) if rng.random() < 0.7 else [], "acting": ["projective", "hyperbolic"][c % 2],
+               "kind": MIX_KINDS[(c // 2) % len(MIX_KINDS)], "xfamily": ["other", "same"][(c // 2) % 5 == 4]}
+
+
+def run_mixcls(inp):
+    """the acting transformation A and the object X belong to different classes (a plain projective.Transformation acting on hyperbolic objects, among them
+    hyperbolic.Isometry; an Isometry acting on projective objects, among them projective.Transformation): in every binary operation, in both orders,
+    the result is an object of the class and composite shape of X, and the operator and the method spell the same action"""
+    g = O.G(inp["seed"])
+    n, kind = inp["n"], inp["kind"]
+    bad = []
+    proj_acting = inp["acting"] == "projective"
+    A = O.invertibles(g, inp["ashape"], n) if proj_acting else O.isometries(g, inp["ashape"], n)
+    B = O.invertibles(g, inp["ashape"], n) if proj_acting else O.isometries(g, inp["ashape"], n)
+    x_hyp = proj_acting if inp["xfamily"] == "other" else not proj_acting          # the family of X: the other one (mostly) or the same one (control)
+    if kind == "transformation":
+        X = O.isometries(g, inp["xshape"], n) if x_hyp else O.invertibles(g, inp["xshape"], n)
+    elif x_hyp:
+        X = O.mk(kind, g, inp["xshape"], n)
+    else:
+        pk = kind if kind in O.CX_KINDS else "point"
+        X = O.mk(pk, g, inp["xshape"], n, cx=True)
+        X = type(X)(np.real(np.array(X.proj_data)))
+        kind = pk
+    xs, as_ = tuple(X.shape), tuple(A.shape)
+    x0 = np.array(X.proj_data)
+    Am = np.array(A.matrix)
+
+    def unit_image(xi, ai):
+        """rows of unit xi of X times the matrix of unit ai of A (a transformation X is acted on like any other object: (A @ X).matrix = X.matrix . A.matrix)"""
+        return x0[xi] @ Am[ai]
+
+    def check(what, R, exp_shape, pick):
+        if type(R) is not type(X):
+            bad.append({"what": what + ":type", "got": type(R).__name__, "expected": type(X).__name__, "acting": type(A).__name__,
+                        "expected_text": "the result of acting has the class of the object acted on"})
+            return False
+        if tuple(R.shape) != tuple(exp_shape):
+            bad.append({"what": what + ":shape", "got": list(R.shape), "expected": list(exp_shape)})
+            return False
+        for idx in np.ndindex(*exp_shape):
+            xi, ai = pick(idx)
+            if not O.data_proj_eq(kind, np.array(R.proj_data)[idx], unit_image(xi, ai), 1e-7):
+                bad.append({"what": what + ":values", "idx": list(idx), "expected": "unit of X times the matrix of the unit of A"})
+                return False
+        return True
+
+    def ew(idx):
+        return (tuple(0 if d == 1 else i for d, i in zip(xs, idx[len(idx) - len(xs):])),
+                tuple(0 if d == 1 else i for d, i in zip(as_, idx[len(idx) - len(as_):])))
+
+    bshape = tuple(np.broadcast_shapes(xs, as_))
+    ok = check("A @ X", A @ X, bshape, ew)
+    ok = check("A.apply(X)", A.apply(X), bshape, ew) and ok
+    ok = check("A.apply(X, elementwise)", A.apply(X, broadcast="elementwise"), bshape, ew) and ok
+    ok = check("A.apply(X, pairwise)", A.apply(X, broadcast="pairwise"), xs + as_, lambda idx: (idx[:len(xs)], idx[len(xs):])) and ok
+    ok = check("A.apply(X, pairwise_reversed)", A.apply(X, broadcast="pairwise_reversed"), as_ + xs, lambda idx: (idx[len(as_):], idx[:len(as_)])) and ok
+    if not ok:
+        return {"bad": bad}
+
+    def same(what, L, R):
+        if type(L) is not type(X) or type(R) is not type(X):
+            bad.append({"what": what + ":type", "got": [type(L).__name__, type(R).__name__], "expected": type(X).__name__, "acting": type(A).__name__})
+        elif tuple(L.shape) != tuple(R.shape) or not O.data_proj_eq(kind, L.proj_data, R.proj_data, 1e-7):
+            bad.append({"what": what, "expected": "equal as projective objects"})
+
+    Xb = type(X)(np.broadcast_to(x0, bshape + x0.shape[len(xs):]).copy())
+    same("A.inv() @ (A @ X) = X", A.inv() @ (A @ X), Xb)
+    same("A @ (A.inv() @ X) = X", A @ (A.inv() @ X), Xb)
+    same("(A @ B) @ X = A @ (B @ X)", (A @ B) @ X, A @ (B @ X))
+    if kind == "transformation":
+        # X acts in turn: both orders of the mixed pair, and the composites acting on points of either family
+        same_cls = lambda what, R, cls: None if type(R) is cls else bad.append({"what": what + ":type", "got": type(R).__name__, "expected": cls.__name__})
+        same_cls("X @ A", X @ A, type(A))
+        same_cls("X.apply(A)", X.apply(A), type(A))
+        same_cls("X.inv() @ (X @ A)", X.inv() @ (X @ A), type(A))
+        first = lambda T: T if not T.shape else type(T)(np.array(T.proj_data).reshape((-1, n + 1, n + 1))[0])
+        for pts in (H.Point(O.klein(g, [3], n), model="klein"), P.Point(g.normal(size=(3, n + 1)))):
+            for F_, G_, nm in ((A, X, "(A @ X) @ p = A @ (X @ p)"), (X, A, "(X @ A) @ p = X @ (A @ p)")):
+                F1, G1 = first(F_), first(G_)
+                L, R = (F1 @ G1) @ pts, F1 @ (G1 @ pts)
+                if type(L) is not type(pts) or type(R) is not type(pts) or not O.rows_proj_eq(L.proj_data, R.proj_data, 1e-7):
+                    bad.append({"what": nm, "points": type(pts).__module__.split(".")[-1], "expected": "left action, result of the class of the points"})
+    if not np.array_equal(np.array(X.proj_data), x0) or not np.array_equal(np.array(A.matrix), Am):
+        bad.append({"what": "operands_modified"})
+    return {"bad": bad}
+
+
 def gen_rep(rng, n):
     for c in range(n):
         # a small deterministic automaton over the generators and their inverses (no label followed by its inverse is required)
         nst = rng.randint(1, 3)
         aut = {str(v): {l: rng.randrange(nst) for l in "abAB" if rng.random() < 0.6} for v in range(nst)}
+        words = ["".join(rng.choice("abAB") for _ in range(rng.randint(0, 7))) for _ in range(3)]
+        own = None
+        if c % 4 >= 2:
+            # semigroup generators: upper-case names given matrices of their own (set_generator(..., compute_inverse=False)), which are NOT the inverses
+            # of the lower-case ones, and words in which a name and its opposite-case name are adjacent (no free reduction is legitimate)
+            own = rng.choice(["A", "B", "AB"])
+            for j in range(len(words)):
+                x = rng.choice(list(own)).lower()
+                k = rng.randint(0, len(words[j]))
+                words[j] = words[j][:k] + rng.choice([x + x.upper(), x.upper() + x, x + x.upper() + x.upper() + x]) + words[j][k:]
         yield {"op": "rep", "n": rng.choice([2, 3]), "seed": rng.randrange(10 ** 9), "hyp": c % 2 == 0,
-               "words": ["".join(rng.choice("abAB") for _ in range(rng.randint(0, 7))) for _ in range(3)], "shape": rng.choice(O.SHAPES[:7]),
-               "automaton": aut, "length": rng.choice([2, 3, 3, 4]),
+               "words": words, "shape": rng.choice(O.SHAPES[:7]),
+               "automaton": aut, "length": rng.choice([2, 3, 3, 4]), "own_uppercase": own,
                "mixed": None if c % 3 else {"int": rng.choice("ab"), "order": rng.choice(["ab", "ba"]), "dtype": rng.choice(["int", "int", "int32", "float32"])}}
 
 
@@ -338,6 +467,10 @@ def run_rep(inp):
         rep[k] = gens[k]
     col = {k: np.array(T.matrix, dtype=float).T for k, T in gens.items()}          # the matrix acting on columns
     col.update({k.upper(): np.linalg.inv(M) for k, M in list(col.items())})
+    for K in (inp.get("own_uppercase") or ""):
+        TK = O.isometries(g, [], n) if inp["hyp"] else O.invertibles(g, [], n)
+        rep.set_generator(K, TK, compute_inverse=False)
+        col[K] = np.array(TK.matrix, dtype=float).T
 
     def colmat(w):
         M = np.identity(n + 1)
@@ -566,6 +699,12 @@ CLAUSES = [
            what="(A@B)@X = A@(B@X), identity, A.inv()@(A@X) = X = A@(A.inv()@X) as projective objects incl. derived data, type and composite shape preserved, "
                 "argument not mutated, derived data of the image = recomputed, A.inv()@A = identity; 11 kinds, real and complex, composite shapes, composite transformations; "
                 "half of the cases on transformations/objects WITH A HISTORY (already inverted/composed/applied, then updated in place by item, slice or ellipsis assignment)"),
+    Clause("mixed_classes", "oracle", gen_mixcls, run_mixcls, O.judge_bad, site="projective.Transformation.apply/__matmul__/inv (operands of different classes)",
+           budget={"quick": 154, "thorough": 3000},
+           what="the acting transformation and the object acted on are of DIFFERENT classes (projective.Transformation on the 10 hyperbolic kinds incl. hyperbolic.Isometry; "
+                "Isometry on projective objects incl. projective.Transformation; same-family controls): A @ X, A.apply(X) in the three broadcast modes have the class and composite "
+                "shape law of X and, at every index, the rows of the unit of X times the matrix of the unit of A; inverse and associativity laws with the class of X; both orders of a "
+                "mixed pair of transformations, and their composites acting on points of either family"),
     Clause("rep_action", "oracle", gen_rep, run_rep, O.judge_bad, site="projective.ProjectiveRepresentation / hyperbolic.HyperbolicRepresentation",
            budget={"quick": 300, "thorough": 3000},
            what="rep[g] = g, rep[w] @ points = (matrix of w)·column for words with inverses, rep[u]@rep[v] = rep[uv], rep.elements(words).apply(points,'pairwise')[i][j] = word j on point i; "
